@@ -237,14 +237,16 @@ func checkOffsetsAndLengths(p *Program, r *Result, isSink func(ssa.CallInstructi
 			// length = Size() - start, with only the group's writer in between
 			checkDifference(p, r, fn, g.length.Val, g.start.Val, "SummaryOffset.GroupLength("+op+")", []string{wr}, g.length, isSink)
 		}
-		// groups built by a constructor helper: h(op, start) { return &SummaryOffset{op, start, Size() - start} }
+		// groups built by a helper from its parameters - h(op, start) { return &SummaryOffset{op, start, Size() - start} } -
+		// or from the fields of a small state value that another helper filled in when the group began
+		// (g := w.begin(op) … g.end())
 		for _, ci := range callsIn(fn, func(ssa.CallInstruction) bool { return true }) {
 			h := ci.Common().StaticCallee()
 			if h == nil || h.Blocks == nil || !p.isRepoFunc(h) || h == fn {
 				continue
 			}
-			opIdx, startIdx, lenOK := -1, -1, false
-			var lenStart ssa.Value
+			var opSrc, startSrc, lenSrc *argSource
+			lenOK := false
 			for _, in := range instrsOf(h) {
 				st, ok := in.(*ssa.Store)
 				if !ok {
@@ -254,39 +256,31 @@ func checkOffsetsAndLengths(p *Program, r *Result, isSink func(ssa.CallInstructi
 				if !ok || tn != "SummaryOffset" {
 					continue
 				}
-				pidx := func(v ssa.Value) int {
-					for i, prm := range h.Params {
-						if stripConv(v) == ssa.Value(prm) {
-							return i
-						}
-					}
-					return -1
-				}
 				switch fld {
 				case "GroupOpcode":
-					opIdx = pidx(st.Val)
+					opSrc = argSourceOf(h, st.Val)
 				case "GroupStart":
-					startIdx = pidx(st.Val)
+					startSrc = argSourceOf(h, st.Val)
 				case "GroupLength":
 					if b, ok := stripConv(st.Val).(*ssa.BinOp); ok && b.Op == token.SUB && sizeCallOf(b.X) != nil {
 						lenOK = true
-						lenStart = stripConv(b.Y)
+						lenSrc = argSourceOf(h, b.Y)
 					}
 				}
 			}
-			if opIdx < 0 && startIdx < 0 && !lenOK {
+			if opSrc == nil && startSrc == nil && !lenOK {
 				continue
 			}
 			hname := funcName(h)
 			args := ci.Common().Args
 			op := ""
-			if opIdx >= 0 && opIdx < len(args) {
-				if c, ok := args[opIdx].(*ssa.Const); ok && c.Value != nil {
+			if v, _, _ := opSrc.resolve(p, args); v != nil {
+				if c, ok := v.(*ssa.Const); ok && c.Value != nil {
 					op = opName[c.Value.String()]
 				}
 			}
 			order = append(order, ci.Value())
-			if op == "" || startIdx < 0 || !lenOK || lenStart != ssa.Value(h.Params[startIdx]) {
+			if op == "" || startSrc == nil || !lenOK || lenSrc == nil || *lenSrc != *startSrc {
 				r.violated("C05.b", funcName(fn), "SummaryOffset built by "+hname, p.pos(ci.Pos()),
 					"the helper does not build the group from (constant opcode, start, current position - start)")
 				continue
@@ -301,13 +295,48 @@ func checkOffsetsAndLengths(p *Program, r *Result, isSink func(ssa.CallInstructi
 				continue
 			}
 			wr := groupWriter[op]
-			startVal := args[startIdx]
+			startVal, beginSite, _ := startSrc.resolve(p, args)
 			var ciInstr ssa.Instruction = ci
-			checkSnapshot(p, r, fn, startVal, "SummaryOffset.GroupStart("+op+")", []string{wr}, false, ciInstr, isSink, ciInstr)
-			if s1 := sizeCallOf(startVal); s1 != nil {
-				checkBracket(p, r, fn, s1, ciInstr, "SummaryOffset.GroupLength("+op+")", []string{wr}, ciInstr, isSink)
-			} else {
-				r.violated("C05.c", funcName(fn), "SummaryOffset.GroupLength("+op+")", p.pos(ci.Pos()), "start is not a position snapshot")
+			switch {
+			case startVal == nil:
+				r.violated("C05.b", funcName(fn), "snapshot for SummaryOffset.GroupStart("+op+")", p.pos(ci.Pos()), "the group's start cannot be traced to a position snapshot")
+			case beginSite == nil:
+				checkSnapshot(p, r, fn, startVal, "SummaryOffset.GroupStart("+op+")", []string{wr}, false, ciInstr, isSink, ciInstr)
+				if s1 := sizeCallOf(startVal); s1 != nil {
+					checkBracket(p, r, fn, s1, ciInstr, "SummaryOffset.GroupLength("+op+")", []string{wr}, ciInstr, isSink)
+				} else {
+					r.violated("C05.c", funcName(fn), "SummaryOffset.GroupLength("+op+")", p.pos(ci.Pos()), "start is not a position snapshot")
+				}
+			default:
+				// the snapshot was taken inside the begin-helper: what is written next is what follows it there and, after
+				// the helper returns, what follows its call
+				sc := sizeCallOf(startVal)
+				construct := "snapshot for SummaryOffset.GroupStart(" + op + ")"
+				if sc == nil {
+					r.violated("C05.b", funcName(fn), construct, p.pos(ci.Pos()), "the group's start is not a position snapshot (Size())")
+					break
+				}
+				next := nextSinkCalls(p, sc.Parent(), sc, isSink)
+				if next["<exit>"] {
+					delete(next, "<exit>")
+					for n := range nextSinkCalls(p, fn, beginSite, isSink, ciInstr) {
+						next[n] = true
+					}
+				}
+				okAll := true
+				detail := ""
+				for n := range next {
+					if n != wr {
+						okAll = false
+						detail = "after the snapshot the next write to the sink is " + n + ", expected " + wr
+					}
+				}
+				if okAll {
+					r.held("C05.b", funcName(fn), construct, p.pos(ci.Pos()), "position taken (in "+funcName(sc.Parent())+") immediately before "+wr)
+				} else {
+					r.violated("C05.b", funcName(fn), construct, p.pos(ci.Pos()), "SummaryOffset.GroupStart must be the file position of the first byte of the group: "+detail)
+				}
+				checkBracket(p, r, fn, beginSite, ciInstr, "SummaryOffset.GroupLength("+op+")", []string{wr}, ciInstr, isSink)
 			}
 		}
 		if len(order) == 0 {
@@ -897,4 +926,98 @@ func helperSnapshot(p *Program, v ssa.Value) (*ssa.Call, *ssa.Call) {
 		found = sc
 	}
 	return found, site
+}
+
+// argSource describes where a helper takes a value from: its i-th parameter, or field f of its i-th parameter (a small
+// struct handed in by value or by pointer).
+type argSource struct {
+	param int
+	field string
+}
+
+func argSourceOf(h *ssa.Function, v ssa.Value) *argSource {
+	v = stripConv(v)
+	for i, prm := range h.Params {
+		if v == ssa.Value(prm) {
+			return &argSource{i, ""}
+		}
+	}
+	// field of a struct parameter: Field(param) or load of FieldAddr(param | alloc holding param)
+	var base ssa.Value
+	field := ""
+	switch x := v.(type) {
+	case *ssa.Field:
+		_, field, base, _ = fieldRef(x)
+	case *ssa.UnOp:
+		if x.Op == token.MUL {
+			_, field, base, _ = fieldRef(x.X)
+		}
+	}
+	if field == "" || base == nil {
+		return nil
+	}
+	for i, prm := range h.Params {
+		if base == ssa.Value(prm) {
+			return &argSource{i, field}
+		}
+		// value receivers are spilled into a local cell
+		if al, ok := base.(*ssa.Alloc); ok {
+			for _, ref := range *al.Referrers() {
+				if st, ok := ref.(*ssa.Store); ok && st.Addr == ssa.Value(al) && st.Val == ssa.Value(prm) {
+					return &argSource{i, field}
+				}
+			}
+		}
+	}
+	return nil
+}
+
+// resolve: the value the source denotes at a call with the given arguments. For a field of a struct argument that was
+// produced by a call to a constructor helper, the value stored into that field inside the constructor is returned
+// together with the constructor's call site (mapped back through the constructor's own parameters where possible).
+func (a *argSource) resolve(p *Program, args []ssa.Value) (val ssa.Value, site *ssa.Call, ok bool) {
+	if a == nil || a.param >= len(args) {
+		return nil, nil, false
+	}
+	arg := args[a.param]
+	if a.field == "" {
+		return arg, nil, true
+	}
+	// the struct value: result of a constructor call (possibly loaded back from the local it was assigned to)
+	v := arg
+	if u, isU := v.(*ssa.UnOp); isU && u.Op == token.MUL {
+		if al, isA := u.X.(*ssa.Alloc); isA {
+			for _, ref := range *al.Referrers() {
+				if st, isS := ref.(*ssa.Store); isS && st.Addr == ssa.Value(al) {
+					v = st.Val
+				}
+			}
+		}
+	}
+	c, isCall := v.(*ssa.Call)
+	if !isCall {
+		return nil, nil, false
+	}
+	b := c.Call.StaticCallee()
+	if b == nil || b.Blocks == nil || !p.isRepoFunc(b) {
+		return nil, nil, false
+	}
+	var stored ssa.Value
+	for _, in := range instrsOf(b) {
+		if st, isS := in.(*ssa.Store); isS {
+			if _, f, _, okf := fieldRef(st.Addr); okf && f == a.field {
+				stored = st.Val
+			}
+		}
+	}
+	if stored == nil {
+		return nil, nil, false
+	}
+	sv := stripConv(stored)
+	for i, prm := range b.Params {
+		if sv == ssa.Value(prm) && i < len(c.Call.Args) {
+			return c.Call.Args[i], c, true
+		}
+	}
+	return stored, c, true
 }
